@@ -15,8 +15,8 @@ MBOk(e) == e.mbexp <= -8 \/ e.mbexp <= e.linexp + 2
 EndClauses(e) ==
   {c \in {"ConvergedOnlyIfCriteria", "FaultFlagged", "DistanceOfReturned", "ReturnedIsLastValid",
           "MassBalance", "PressurePinned", "CellFluxFromSolution", "TransportDensityFromSolution"} :
-     CASE c = "ConvergedOnlyIfCriteria" -> ~(e.converged = 1 => e.critmet = 1 /\ m.failedAt = -1)
-       [] c = "FaultFlagged" -> ~(m.failedAt # -1 => e.converged = 0)
+     CASE c = "ConvergedOnlyIfCriteria" -> ~(e.converged = 1 => e.critmet = 1 /\ m.failedAt = -1 /\ ~m.postFailed)
+       [] c = "FaultFlagged" -> ~((m.failedAt # -1 \/ m.postFailed) => e.converged = 0)
        [] c = "DistanceOfReturned" -> ~(e.dexp <= -8)
        [] c = "ReturnedIsLastValid" -> ~(e.retver = m.cur)
        [] c = "MassBalance" -> ~MBOk(e)
@@ -33,6 +33,9 @@ Step(e) ==
     [] e.op = "fault" -> /\ N' = N
                          /\ IF ~IterEnabled(m, N) \/ e.i # m.iter THEN m' = m /\ Bad(e, "LoopStructure")
                             ELSE m' = LoopIterFail(m, N, "fixed")
+    [] e.op = "postfault" -> /\ N' = N
+                         /\ IF ~PostEnabled(m) THEN m' = m /\ Bad(e, "LoopStructure")
+                            ELSE m' = LoopPostFail(m, "fixed")
     [] e.op = "end" ->   /\ UNCHANGED <<m, N>>
                          /\ IF e.raised = 1 THEN Bad(e, "SolveTotal")
                             ELSE IF m.pc # "done" /\ ~(e.earlyexit = 1) THEN Bad(e, "LoopStructure")
